@@ -216,17 +216,26 @@ impl Sink {
     }
     /// a case that has no Coq side (implementation-only oracle); still counted and replayable
     pub fn case_rust_only(&mut self, desc: Value, nontrivial: bool) -> usize {
-        self.case("true".to_string(), desc, nontrivial)
+        let id = self.terms.len();
+        let h = hash_of(&desc.to_string());
+        if self.seen.insert(h) && nontrivial {
+            self.nontrivial += 1;
+        }
+        self.terms.push(String::new()); // empty = no Coq term
+        self.descs.push(desc);
+        id
     }
     /// failure found by the Rust-side oracle for case `id` (class = known-finding class or "")
     pub fn fail(&mut self, id: usize, what: &str, class: &str) {
         self.failures.push(json!({"case": id, "what": what, "class": class, "by": "rust-oracle"}));
     }
     pub fn finish(self) {
-        let nshards = (self.terms.len() + self.shard_size - 1) / self.shard_size;
+        // only cases that have a Coq term go into shards, each with its global id
+        let with_term: Vec<usize> = (0..self.terms.len()).filter(|i| !self.terms[*i].is_empty()).collect();
+        let nshards = (with_term.len() + self.shard_size - 1) / self.shard_size;
         for s in 0..nshards {
             let lo = s * self.shard_size;
-            let hi = usize::min(lo + self.shard_size, self.terms.len());
+            let hi = usize::min(lo + self.shard_size, with_term.len());
             let mut f = String::new();
             writeln!(f, "From Coq Require Import List NArith ZArith Bool String.").unwrap();
             writeln!(f, "From SudachiVerif Require Import Model.Harness.").unwrap();
@@ -234,15 +243,15 @@ impl Sink {
                 writeln!(f, "From SudachiVerif Require Import {}.", i).unwrap();
             }
             writeln!(f, "Import ListNotations.").unwrap();
-            writeln!(f, "Definition cases : list bool := [").unwrap();
-            for (k, t) in self.terms[lo..hi].iter().enumerate() {
+            writeln!(f, "Definition cases : list (N * bool) := [").unwrap();
+            for (k, i) in with_term[lo..hi].iter().enumerate() {
                 if k > 0 {
                     writeln!(f, ";").unwrap();
                 }
-                write!(f, "  ({})", t).unwrap();
+                write!(f, "  ({}%N, {})", i, self.terms[*i]).unwrap();
             }
             writeln!(f, "\n].").unwrap();
-            writeln!(f, "Eval vm_compute in (failures {}%N cases).", lo).unwrap();
+            writeln!(f, "Eval vm_compute in (failing_ids cases).").unwrap();
             std::fs::write(self.dir.join(format!("cases_{:04}.v", s)), f).unwrap();
         }
         let mut jl = std::fs::File::create(self.dir.join("cases.jsonl")).unwrap();
@@ -266,6 +275,7 @@ impl Sink {
             "seed": self.seed,
             "tier": self.tier,
             "evaluations": self.terms.len(),
+            "model_cases": with_term.len(),
             "distinct_nontrivial": self.nontrivial,
             "rule": self.rule,
             "histogram": self.hist,
